@@ -9,23 +9,15 @@ def irdl_attr_definition(cls):
     return cls
 
 
+from pyvc.irdlhelpers import (attr_def, irdl_init, operand_def, opt_attr_def, opt_operand_def, opt_prop_def, opt_region_def,
+                              opt_result_def, prop_def, region_def, result_def, var_operand_def, var_region_def, var_result_def)
+from xdsl.ir import Operation
+
+
 def _none(*a, **k):
     return None
 
 
-operand_def = _none
-opt_operand_def = _none
-var_operand_def = _none
-result_def = _none
-opt_result_def = _none
-var_result_def = _none
-prop_def = _none
-opt_prop_def = _none
-attr_def = _none
-opt_attr_def = _none
-region_def = _none
-opt_region_def = _none
-var_region_def = _none
 successor_def = _none
 traits_def = _none
 param_def = _none
@@ -34,8 +26,18 @@ base = _none
 eq = _none
 
 
-class IRDLOperation:
-    pass
+class IRDLOperation(Operation):
+    __init__ = irdl_init
+
+    @classmethod
+    def create(cls, operands=(), result_types=(), properties=None, attributes=None, successors=(), regions=()):
+        o = object.__new__(cls)
+        irdl_init(o, operands, result_types, properties, attributes, successors, regions)
+        return o
+
+    @classmethod
+    def build(cls, operands=(), result_types=(), properties=None, attributes=None, successors=(), regions=()):
+        return cls.create(operands, result_types, properties, attributes, successors, regions)
 
 
 class ParameterDef:
